@@ -1,16 +1,8 @@
-// shadow of <boost/asio/steady_timer.hpp>: harness-controlled timer under the real name
+// shadow of <boost/asio/steady_timer.hpp>: a timer under the real name whose expiry is decided by the harness (virtual time)
 #ifndef VK_SHADOW_STEADY_TIMER_HPP
 #define VK_SHADOW_STEADY_TIMER_HPP
-#include <boost/asio/async_result.hpp>
-#include <boost/asio/any_completion_handler.hpp>
-#include <boost/asio/any_io_executor.hpp>
-#include <boost/asio/error.hpp>
-#include <boost/asio/post.hpp>
-#include <boost/asio/prepend.hpp>
-#include <boost/asio/associated_cancellation_slot.hpp>
-#include <boost/system/error_code.hpp>
+#include "vk_world.hpp"
 #include <chrono>
-extern "C" { extern long vk_timer_last_ms; extern int vk_timer_armed; }
 namespace boost { namespace asio {
 class steady_timer {
 public:
@@ -18,28 +10,31 @@ public:
   using clock_type = std::chrono::steady_clock;
   using duration = clock_type::duration;
   using time_point = clock_type::time_point;
-  template <class Ex> explicit steady_timer(const Ex& ex) : _ex(ex) {}
-  steady_timer(steady_timer&&) = default;
+  template <class Ex> explicit steady_timer(const Ex& ex) : _ex(ex), _r(new vk::timer_rec()) { _r->id = (int)vk::world().timers.size(); vk::world().timers.push_back(_r); }
+  steady_timer(steady_timer&& o) : _ex(std::move(o._ex)), _r(o._r) { o._r = nullptr; }
+  steady_timer(const steady_timer&) = delete;
+  ~steady_timer() { if (_r) { vk::timer_cancel(_r); _r->id = -2 - _r->id; } }   // record stays (harness may inspect), marked dead
   executor_type get_executor() const noexcept { return _ex; }
-  std::size_t expires_after(const duration& d) { _d = d; vk_timer_last_ms = std::chrono::duration_cast<std::chrono::milliseconds>(d).count(); return cancel(); }
-  std::size_t cancel() {
-    if (!_h) return 0;
-    auto h = std::move(_h);
-    asio::post(_ex, asio::prepend(std::move(h), boost::system::error_code(asio::error::operation_aborted)));
-    return 1;
+  std::size_t expires_after(const duration& d) {
+    std::size_t n = cancel();
+    bool mx; int64_t ms = vk::clamp_ms(std::chrono::duration_cast<std::chrono::nanoseconds>(d).count(), mx);
+    _r->dur_ms = ms; _r->max_wait = mx; _r->deadline_ms = mx ? INT64_MAX : vk::world().now_ms + ms;
+    return n;
   }
-  bool fire() { if (!_h) return false; auto h = std::move(_h); asio::post(_ex, asio::prepend(std::move(h), boost::system::error_code{})); return true; }
+  std::size_t cancel() { if (!_r->h) return 0; vk::timer_cancel(_r); return 1; }
   template <class Token> auto async_wait(Token&& token) {
-    return asio::async_initiate<Token, void(boost::system::error_code)>(
+    return async_initiate<Token, void(boost::system::error_code)>(
       [this](auto handler) {
-        auto slot = asio::get_associated_cancellation_slot(handler);
-        _h = any_completion_handler<void(boost::system::error_code)>(std::move(handler));
-        vk_timer_armed++;
-        if (slot.is_connected()) slot.assign([this](cancellation_type_t) { this->cancel(); });
+        auto slot = get_associated_cancellation_slot(handler);
+        vk::timer_rec* r = _r;
+        r->h = any_completion_handler<void(boost::system::error_code)>(std::move(handler));
+        r->armed = true; r->arm_count++;
+        if (slot.is_connected()) slot.assign([r](cancellation_type_t) { vk::timer_cancel(r); });
       }, token);
   }
+  vk::timer_rec* vk_rec() const { return _r; }
 private:
-  any_io_executor _ex; duration _d {}; any_completion_handler<void(boost::system::error_code)> _h;
+  any_io_executor _ex; vk::timer_rec* _r;
 };
 }}
 #endif
